@@ -43,6 +43,13 @@ CLAIMED = {
                      "path/filepath and the real functions on generated byte strings; a scripted hostile sender drives the real RecvManifestMultiStream and the set of created "
                      "paths must equal the model's prediction, with nothing changed outside the out dir (full sandbox snapshot).",
                 note=BASE_TB + "Modelled not verified: lexical confinement only (fresh out dir without symlinks); nested Join = one Clean is checked differentially; OS path limits; encoding/json string decoding."),
+    "C15": dict(category="proof", design="DESIGN.md §4 C15",
+                technique="Lean 4 theorems on the total decoder model (suffix/consumption, per-field reservation bound, frame guards) + regenerated make-site obligation; mutation-fuzz differential with heap measurement; scripted hostile peers",
+                text="The decoder model is total; theorems show it returns a suffix of its input, that every field of every record reserves <= 3*received+65 KiB whatever the peer announces, "
+                     "and that the FileBegin/frame guards exclude the states where the real code panics. The list of make() sites in the decoders is regenerated and must equal the one the "
+                     "reservation model accounts for. The real readControlMessage is fuzzed (truncation at every offset, bit flips, tag substitution, length maximisation, count inflation) against the "
+                     "model with TotalAlloc measured; scripted hostile senders/receivers drive the real Recv/SendManifestMultiStream (every record at every stage, header fuzz, frame tampering) under a 3 s watchdog.",
+                note=BASE_TB + "Modelled not verified: Go allocator behaviour (bytes.Buffer growth <= 2x), goroutine panics are observed as process death. Known finding: data-frame buffer sized by announced ChunkSize."),
 }
 PENDING_REASON = "check not built yet in this round (design in DESIGN.md §4); not claimed until its theorem and tie exist"
 NOT_APPLICABLE = {}
